@@ -1100,11 +1100,17 @@ ASSUME = ["every operation is executed exactly once, atomically, on owner(key) b
 
 
 def run(tier, seed, model_ok=True):
-    return run_flavours(FLAVOURS, tier, seed, model_ok, RULE, ASSUME, race_env="C11_POST_CLEAR_NOBARRIER")
+    res = run_flavours(FLAVOURS, tier, seed, model_ok, RULE, ASSUME, race_env="C11_POST_CLEAR_NOBARRIER")
+    from lib import swaprace
+    swaprace.run(res, "map", tier, seed)     # swap() / clear() followed at once by operations, no barrier
+    return res
 
 
 def replay_with(flavour_of, data):
     case = dict(data.get("case") or {})
+    if case.get("harness") == "swaprace":
+        from lib import swaprace
+        return swaprace.replay(data)
     if "gen_seed" not in case:
         print("replay: nothing executable recorded:", data.get("no_longer_checks"))
         return False
